@@ -37,7 +37,9 @@ func runC06(c *Ctx) {
 		}
 		fn := p.SSAFunc(obj)
 		var bad []string
-		allCalls(fn, true, func(in *ssa.Function, call ssa.CallInstruction) {
+		seenHelper := map[*ssa.Function]bool{fn: true}
+		var visit func(in *ssa.Function, call ssa.CallInstruction)
+		visit = func(in *ssa.Function, call ssa.CallInstruction) {
 			cc := call.Common()
 			if _, isB := cc.Value.(*ssa.Builtin); isB {
 				return
@@ -64,8 +66,18 @@ func runC06(c *Ctx) {
 			if f := cc.StaticCallee(); f != nil && f.Parent() != nil {
 				return // local closure of the search function itself
 			}
+			// an unexported helper of the package is part of the search function:
+			// the same restriction applies to what it calls
+			if f := cc.StaticCallee(); f != nil && f.Blocks != nil && f.Pkg == fn.Pkg && f.Object() != nil && !f.Object().Exported() && f.Signature.Recv() == nil && len(seenHelper) < 8 {
+				if !seenHelper[f] {
+					seenHelper[f] = true
+					allCalls(f, true, visit)
+				}
+				return
+			}
 			bad = append(bad, name)
-		})
+		}
+		allCalls(fn, true, visit)
 		sort.Strings(bad)
 		c.Check(rule, k+" uses only bounds, null-page flags and the comparison function", fn.Pos(), len(bad) == 0, k+" calls "+strings.Join(bad, ", ")+": page selection must depend only on NumPages/MinValue/MaxValue/NullPage/IsAscending and the caller's comparison (e.g. a null *count* says nothing about whether the page also holds values)")
 	}
